@@ -854,6 +854,34 @@ def rule_res(ctx) -> None:
         p = cfg.path([n], lambda x: x in heads, avoid=lambda x: x in caps, edge_ok=no_exc, include_start=False)
         ctx.check(bool(caps) and p is None, "C11.RES", f"{t2.qual}/residual-cap-tested", t2.loc(c), "every chosen node is followed by the residual-cap test", "the residual cap is not tested after a node is chosen",
                   ctx.path_witness(t2, p))
+    # "labels occur in the hits actually used": the used hits are a PREFIX of the list the stage returns as `retrieved` - the
+    # order after the rerank layers - not of an earlier ranking.  Roles: R = the name handed to T2Result(retrieved=...), U = what
+    # the residual loop walks; every definition of U is R or R[:n], and R is not re-bound between that definition and the result.
+    res_nodes = [m for m in cfg.nodes if m.kind == "stmt" and isinstance(m.ast, ast.Assign) and isinstance(m.ast.value, ast.Call) and call_tail(m.ast.value) == "T2Result"]
+    rnames = {kw.value.id for m in res_nodes for kw in m.ast.value.keywords if kw.arg == "retrieved" and isinstance(kw.value, ast.Name)}
+    loops_u = {src(st.iter) for n, c in apps for st, part in enclosing(ctx.prog, t2, c) if isinstance(st, ast.For) and part == "body" and isinstance(st.iter, ast.Name)}
+    outer_u = {src(loops[-1].iter) for n, c in apps for loops in [[st for st, part in enclosing(ctx.prog, t2, c) if isinstance(st, ast.For) and part == "body"]] if loops and isinstance(loops[-1].iter, ast.Name)}
+    if not rnames or not outer_u:
+        raise AnalysisError("anchor-vanished: T2Result(retrieved=<name>) / the residual loop's source")
+    for U in sorted(outer_u):
+        hn = [h for h in cfg.nodes if h.kind == "iter" and isinstance(h.ast.iter, ast.Name) and h.ast.iter.id == U]
+        ds = [d for d in rd.reaching(U, hn[0]) if d.kind != "mutate"] if hn else []
+        bad = None
+        for d in ds:
+            v = d.value
+            base = v.value if isinstance(v, ast.Subscript) and isinstance(v.slice, ast.Slice) and v.slice.lower is None and v.slice.step is None else v
+            if not (isinstance(base, ast.Name) and base.id in rnames):
+                bad = bad or (d, f"`{src(v)[:40] if v is not None else d.kind}` is not a prefix of `{sorted(rnames)[0]}`, the list the stage returns")
+                continue
+            # R re-bound after U was cut from it?
+            later = [d2 for d2 in rd.all_defs if d2.name == base.id and d2.kind != "mutate" and d2.node is not d.node and d2.node in cfg.reach([d.node], include_start=False)
+                     and any(m in cfg.reach([d2.node], include_start=False) for m in res_nodes)]
+            if later:
+                bad = bad or (d, f"`{base.id}` is re-bound (`{src(later[0].node.ast)[:40]}`) after `{U}` was cut from it")
+        ctx.check(bool(ds) and bad is None, "C11.RES", ctx.okey(f"{t2.qual}/used-hits-are-a-prefix-of-the-returned-order"), t2.loc(bad[0].node.ast if bad else (hn[0].ast if hn else t2.node)),
+                  f"`{U}` is `{sorted(rnames)[0]}` or a prefix of it, as returned",
+                  (f"the residual nudges walk `{U}`, and {bad[1]}: under a slice cap the nudges are taken from hits of another order than the one returned - a node whose label occurs only in a hit "
+                   "outside the used set is nudged, and the node of a hit the rerank promoted into it is not") if bad else "")
     bl = ctx.func("clematis.engine.stages.t2.state:build_label_map")
     okb = any(isinstance(x, ast.Call) and isinstance(x.func, ast.Attribute) and x.func.attr == "get" and isinstance(x.func.value, ast.Attribute) and x.func.value.attr == "nodes" for x in walk_no_defs(bl.node)) \
         and any(isinstance(x, (ast.For, ast.comprehension)) and isinstance(x.iter, ast.Call) and dotted(x.iter.func) == "sorted" for x in ast.walk(bl.node))
